@@ -98,6 +98,11 @@ CHECKS = {
         technique='TLC-derived sentences (with line-break flags) get comments placed in rotating gaps; replayed into parse with / without capture (dictated tree), attached comments validated as position probes by PosTrace.tla, pretty-print round trip compared',
         text='For TLC-derived programs of 7 themes with one or two comments (single-line block anywhere; line comments and multi-line block comments where the derivation has a line break or at the end; adjacent pairs): parsing with capture must give the same verdict and the dictated tree as without; every attached comment must be a verbatim placed comment at its recorded offset / line / column (TLC, LineCol machine), not attached twice; pretty-printing and re-parsing with capture must give the same tree and the same comments in traversal order.',
         note='Capturing all comments is not demanded; three named deviations of the round-trip clause are listed in known_findings.json and recognised by a predicate on the printed text (cause classes), anything else is a violation.'),
+    'C07': dict(
+        category='model_checking', design_ref='5 (C07)',
+        technique='TLC enumerates abstract programs as scope trees (ScopeGen.tla, exhaustive + tlc -simulate); each is rendered, parsed and printed with / without obfuscation in 5 configurations; the recorded renaming of every identifier occurrence is validated by the ES5 scope-resolution specification ScopeTrace.tla in TLC batches',
+        text='For every scope tree up to MaxItems items (function declarations, named / anonymous function expressions, catch blocks, parameters, hoisted vars, references, property names over a 3-name pool so that names collide with free names), seeded deeper simulated trees and wide scopes of 53 / 54 / 60 / 600 declarations (multi-letter generated names, the keywords do / if / in), x {minify, +globals, +shadow_funcname, +drop_semi+globals+shadow, indent+obfuscate}: the obfuscated output parses, differs from the un-obfuscated output of the same printer in identifier tokens only, and TLC resolves every occurrence before and after by the ES5 rules: same variable after iff same before, free / property / (unless requested) top-level names unchanged, no generated reserved word.',
+        note='Rendered programs hold no with / eval / labels / strings; function declarations inside catch blocks are not generated (ES5 gives them no meaning).  One design deviation (name of a function expression bound in the enclosing scope) is a known finding, attributed by re-judging the record under that design with the same specification.'),
 }
 
 NOT_YET = {}
